@@ -15,6 +15,8 @@ pub struct Cfg {
     pub variants: bool,
     pub max_mismatch_traces: usize,
     pub sample_every: usize,
+    /// predicates the caller is interested in: evidence samples are taken from transitions that exercise one of them
+    pub want_ex: Vec<String>,
 }
 
 fn diff_fields(exp: &Value, got: &Value, path: &str, out: &mut Vec<String>) {
@@ -226,6 +228,7 @@ struct Agg {
     op_counts: BTreeMap<String, u64>,
     variant_counts: BTreeMap<String, u64>,
     samples: Vec<Value>,
+    wanted_samples: Vec<Value>,
     crashes: Vec<Value>,
     mm: TraceWriter,
     sm: TraceWriter,
@@ -390,6 +393,7 @@ pub fn run(cfg: Cfg) -> i32 {
         op_counts: BTreeMap::new(),
         variant_counts: BTreeMap::new(),
         samples: vec![],
+        wanted_samples: vec![],
         crashes: vec![],
         mm_written: 0,
     };
@@ -435,8 +439,15 @@ pub fn run(cfg: Cfg) -> i32 {
             }
         };
         a.edges += 1;
+        let mut wanted = false;
         for e in v["ex"].as_array().into_iter().flatten() {
-            *a.ex_counts.entry(e.as_str().unwrap_or("?").to_string()).or_default() += 1;
+            let name = e.as_str().unwrap_or("?");
+            *a.ex_counts.entry(name.to_string()).or_default() += 1;
+            wanted |= a.cfg.want_ex.iter().any(|w| w == name);
+        }
+        if wanted && a.wanted_samples.len() < 4 && (a.edges % 97 == 1 || a.wanted_samples.is_empty()) {
+            a.wanted_samples.push(json!({"path":v["path"],"exercises":v["ex"],"expected_after":v["o"]["hd"],
+                "result":{"cls":v["c"]["cls"],"val":v["c"]["val"],"msg":v["c"]["msg"],"dA":v["c"]["dA"],"dR":v["c"]["dR"],"dD":v["c"]["dD"]}}));
         }
         if workers.len() < NWORKERS {
             workers.push(spawn_worker(a.cfg.variants, a.cfg.sample_every, &a.hdr));
@@ -472,7 +483,8 @@ pub fn run(cfg: Cfg) -> i32 {
         "mismatch_fields": a.mismatch_fields, "mismatch_traces_written": a.mm_written, "mismatch_trace_events": a.mm.events,
         "sample_histories": a.sm.histories, "sample_events": a.sm.events,
         "spec_errors": a.spec_errors, "spec_error_samples": a.spec_error_samples,
-        "exercised": a.ex_counts, "ops": a.op_counts, "variants": a.variant_counts, "samples": a.samples,
+        "exercised": a.ex_counts, "ops": a.op_counts, "variants": a.variant_counts,
+        "samples": if a.wanted_samples.is_empty() { a.samples.clone() } else { a.wanted_samples.clone() },
         "crashes": a.crashes,
         "tlc_failing": failing_lines, "tlc_tail": tlc_tail,
     });
